@@ -125,7 +125,8 @@ theorem skel_Basic__publish_confirm : Gen.Skel.Basic__publish_confirm =
 
 theorem skel_Rpc__wait_for_request : Gen.Skel.Rpc__wait_for_request =
   ["while", "r:_response", "do", "try", "call:connection_adapter.check_for_errors",
-    "except:AMQPMessageError", "if", "then", "raise", "endif", "endtry", "if", "then",
+    "except:AMQPMessageError", "if", "then", "raise", "endif",
+    "call:connection_adapter.exceptions.insert", "endtry", "if", "then",
     "call:_raise_rpc_timeout_error", "endif", "call:time.sleep", "endwhile"] := by decide
 
 theorem skel_Channel_confirm_deliveries : Gen.Skel.Channel_confirm_deliveries =
